@@ -26,6 +26,12 @@ Two oracle layers (DESIGN section 4, C16):
     everything but its exact names; ``fwhm`` -- which the unchanged code and fit_peaks use with a superset
     dict -- must equal factor(kind) x the model's OWN scale (analytic FWHM) and be bitwise what it reports
     for its own dict alone; without its own scale entry it has nothing to report and must refuse.
+(d) units given in every way a caller may (``*_unit_case``): from a consistent assignment every single argument
+    in turn is given in another scale of its unit (mm next to m, ms next to s, percent next to a pure number, ...)
+    and in a unit of another dimension, for every model kind and inside composites.  Judged by
+    ``Monitors.judge_units`` through the independent unit table of rv/oracle/peakdefs.py: a refusal is always
+    fine; a returned result must be the physical value of the definition (everything brought to SI) in a unit of
+    the implied dimension, and must not exist at all when the terms have no common dimension.
 """
 
 from __future__ import annotations
@@ -52,14 +58,32 @@ RULE = (
     'reversed, extension, doubling, truncation, longer/shorter unrelated, empty), each with its own values, '
     'called and asked for fwhm/guess/param_bounds with its own dict, the full dict of the composite of the '
     'family in 3 orders, own+sibling in both orders, sibling names (sibling or own values), one name swapped, '
-    'names mixed'
+    'names mixed. In every shard one units case per model kind (3 peaks, polynomial, polynomial + peak composite built '
+    'with + and with a prefixed CompositeModel): units are descriptors over an own table of 25 base units; from a '
+    'consistent assignment (x, loc, scale in one unit, a_i in y/x^i, fraction a pure number, parts with one result '
+    'unit) every single argument in turn (x, loc, scale, loc and scale, amplitude, fraction, a0, the first / an inner / '
+    'the highest coefficient, the result unit of one part) is given in another scale of the same quantity (another '
+    'base unit of that dimension, or percent) and in a unit of another dimension (x or / K, s, m, kg; the unit of '
+    'the neighbouring coefficient; all coefficients in the unit of a0); the polynomial additionally with pure '
+    'numbers (percent next to dimensionless)'
 )
 ASSUMPTIONS = [
     'numpy long double (x87 80 bit) evaluates the closed forms with error << 64 eps (mpmath self-test per run)',
     'pseudo-Voigt width convention is the documented one: the Gaussian part has sigma_G = scale/sqrt(2 ln 2) '
     'so that both parts have FWHM 2*scale (class docstring)',
-    'parameters and x carry the same unit for loc/scale/x (scipp does not convert units implicitly); '
-    'polynomial coefficient a_i carries y-unit / x-unit^i',
+    'the closed forms are written for loc, scale and x in one unit, a_i in y-unit / x-unit^i, fraction a pure number '
+    'and parts with one result unit (scipp does not convert units implicitly): such calls must succeed and give '
+    'amplitude unit / x unit resp. the unit of a0',
+    'arguments in other units ("x and y in arbitrary units", results "carry the units implied by the parameters"): '
+    'the arguments are physical quantities, so a returned result must be the physical value of the definition '
+    '(all arguments brought to SI with the own unit table, forward bound of the definition for inputs rounded by a '
+    'conversion) in a unit of the implied dimension; where the terms have no common dimension in length / mass / '
+    'time / temperature there is no implied unit and the call must be refused; a refusal (sc.UnitError, ValueError, '
+    'TypeError, KeyError) is always allowed for non-exact units; units that differ in angle / counts only (pure '
+    'numbers in SI, distinct for scipp) are not judged',
+    'the own unit table (exact rational SI factors, dimension vectors) agrees with sc.to_unit on its 25 base units '
+    '(self-test per run); scipp is trusted to build the container unit of a product of base units and to compare '
+    'units for equality',
     'a refusal is an exception of type ValueError (what the code raises), KeyError or TypeError '
     '(conventional for bad names); the property text only says "refuse"; other types are violations',
     'fwhm(params) may be given a superset of the model\'s names (the package does: fit_peaks passes the full '
@@ -70,7 +94,9 @@ ASSUMPTIONS = [
 ]
 TECHNIQUE = ('runtime monitors (sys.monitoring) on Model.__call__, every _call, fwhm, guess, param_bounds, '
              'with_prefix and the constructors; long-double closed forms at the exact abscissae + analytic '
-             'identities (quadrature, symmetry, half maximum, additivity, prefix invariance, units, refusal)')
+             'identities (quadrature, symmetry, half maximum, additivity, prefix invariance, units, refusal); '
+             'arguments in non-matching units judged in SI through an independent unit table (refusal or the '
+             'physical value; refusal only for dimensionally inconsistent terms)')
 LEVEL_TEXT = ('exploration: every observed model evaluation in generated workloads (direct and inside fit_peaks) '
               'is compared with the analytic definition in 80-bit arithmetic at the forward error bound of the '
               'definition, and the normalisation / symmetry / FWHM / additivity / prefix / unit / refusal '
@@ -87,6 +113,9 @@ TOL_NORM = 1e-10
 PEAKS = ('gauss', 'lorentz', 'pvoigt')
 PEAK_NAMES = ('amplitude', 'loc', 'scale')
 REFUSAL_TYPES = (ValueError, KeyError, TypeError)
+# refusing units: scipp's typed unit error (what the in-place unit algebra of the unchanged code raises) or
+# the conventional ones
+UNIT_REFUSAL_TYPES = (sc.UnitError, ValueError, KeyError, TypeError)
 
 X_UNITS = ['m', 'mm', 'angstrom', 'us', 'ms', 'deg', 'meV', 'dimensionless', '1/angstrom']
 A_UNITS = ['counts', 'dimensionless', 'kg', 'K', 'counts*angstrom', 'm', 'J/s', '1/us']
@@ -145,6 +174,12 @@ class OutOfDomain(Exception):
     pass
 
 
+class UnitsNotExact(OutOfDomain):
+    """The units of the arguments are not exactly the ones the closed form is written for (x, loc, scale in
+    one unit; a_i in a_0.unit / x.unit**i; fraction a plain number; parts with equal result units): judged
+    by ``Monitors.judge_units`` through the independent unit table instead."""
+
+
 def _val(p, allow_variance=False):
     """Float value of a scalar parameter; OutOfDomain when not a plain finite float scalar."""
     if not isinstance(p, sc.Variable) or p.ndim != 0 or (p.variance is not None and not allow_variance):
@@ -170,14 +205,14 @@ def expected(spec, x: sc.Variable, params: dict):
         lv, lt, lu = expected(spec['left'], x, {k: inner[k] for k in ln})
         rv, rt, ru = expected(spec['right'], x, {k: inner[k] for k in rn})
         if lu != ru:
-            raise OutOfDomain('parts with different units')
+            raise UnitsNotExact('parts with different units')
         v, t = pk.sum_ref(lv, lt, rv, rt)
         return v, t, lu
     if kind == 'poly':
         cs = [_val(inner[f'a{i}']) for i in range(spec['degree'] + 1)]
         for i in range(spec['degree'] + 1):
             if inner[f'a{i}'].unit != inner['a0'].unit / x.unit ** i:
-                raise OutOfDomain('coefficient units not y/x^i')
+                raise UnitsNotExact('coefficient units not y/x^i')
         if max(abs(c) for c in cs) > 1e30 or (xv.size and np.max(np.abs(xv)) > 1e30):
             raise OutOfDomain('overflow range')
         v, t = pk.polynomial_ref(xv, cs)
@@ -186,7 +221,7 @@ def expected(spec, x: sc.Variable, params: dict):
     if not (1e-6 * (1 - 1e-12) <= s <= 1e6 * (1 + 1e-12)):
         raise OutOfDomain('scale outside 1e-6..1e6')
     if inner['loc'].unit != x.unit or inner['scale'].unit != x.unit:
-        raise OutOfDomain('loc/scale unit differs from x unit')
+        raise UnitsNotExact('loc/scale unit differs from x unit')
     unit = inner['amplitude'].unit / x.unit
     if kind == 'gauss':
         v, t = pk.gaussian_ref(xv, a, m, s)
@@ -194,12 +229,97 @@ def expected(spec, x: sc.Variable, params: dict):
         v, t = pk.lorentzian_ref(xv, a, m, s)
     else:
         f = _val(inner['fraction'])
+        if inner['fraction'].unit != sc.units.one:
+            raise UnitsNotExact('fraction with unit')
         if not 0.0 <= f <= 1.0:
             raise OutOfDomain('fraction outside [0, 1]')
-        if inner['fraction'].unit != sc.units.one:
-            raise OutOfDomain('fraction with unit')
         v, t = pk.pseudo_voigt_ref(xv, a, m, s, f)
     return v, t, unit
+
+
+def _uinfo(unit):
+    try:
+        return pk.u_lookup(unit)
+    except KeyError:
+        raise OutOfDomain('unit not in the independent table') from None
+
+
+def _worst(rels):
+    return 'hard' if 'hard' in rels else ('soft' if 'soft' in rels else 'same')
+
+
+def si_expected(spec, x: sc.Variable, params: dict):
+    """What the definition gives as a physical quantity, whatever (known) units the arguments are in.
+
+    Every argument is brought to SI with the factors of the independent table (rv/oracle/peakdefs.py).
+    Returns a dict with ``relation``:
+
+    * ``'inconsistent'``: the terms have no common dimension (a_i x^i against a_0; loc or scale against x;
+      a fraction that is not a pure number; parts of a composite against each other) in at least one of
+      length / mass / time / temperature -- there is no implied unit, ``why`` names the terms;
+    * ``'undecided'``: they differ in angle / counts only (pure numbers in SI, distinct for scipp);
+    * ``'consistent'``: ``value`` (long double, SI), ``tol`` (forward bound of the definition for inputs
+      rounded once more by the conversion) and ``dim`` (dimension of the result)."""
+    p = spec['prefix']
+    inner = {k[len(p):]: v for k, v in params.items()}
+    kind = spec['kind']
+    if kind == 'comp':
+        ln, rn = spec_names(spec['left']), spec_names(spec['right'])
+        li = si_expected(spec['left'], x, {k: inner[k] for k in ln})
+        ri = si_expected(spec['right'], x, {k: inner[k] for k in rn})
+        why = li.get('why', []) + ri.get('why', [])
+        rels = []
+        for part in (li, ri):
+            rels.append({'inconsistent': 'hard', 'undecided': 'soft', 'consistent': 'same'}[part['relation']])
+        if 'hard' not in rels and 'soft' not in rels:
+            rel = pk.dim_relation(li['dim'], ri['dim'])
+            rels.append(rel)
+            if rel != 'same':
+                why = [*why, 'left part against right part']
+        w = _worst(rels)
+        if w == 'hard':
+            return {'relation': 'inconsistent', 'why': why}
+        if w == 'soft':
+            return {'relation': 'undecided', 'why': why}
+        v, t = pk.sum_ref(li['value'], li['tol'], ri['value'], ri['tol'])
+        return {'relation': 'consistent', 'value': v, 'tol': t, 'dim': li['dim'], 'why': []}
+    xv = np.asarray(x.values, dtype=np.float64).astype(LD)
+    fx, dx = _uinfo(x.unit)
+    if kind == 'poly':
+        n = spec['degree'] + 1
+        cs = [_val(inner[f'a{i}']) for i in range(n)]
+        if max(abs(c) for c in cs) > 1e30 or (xv.size and np.max(np.abs(xv)) > 1e30):
+            raise OutOfDomain('overflow range')
+        info = [_uinfo(inner[f'a{i}'].unit) for i in range(n)]
+        d0 = info[0][1]
+        rels = [pk.dim_relation(pk.dim_add(info[i][1], dx, i), d0) for i in range(n)]
+        why = [f'a{i} x^{i} against a0' for i in range(n) if rels[i] != 'same']
+        w = _worst(rels)
+        if w != 'same':
+            return {'relation': 'inconsistent' if w == 'hard' else 'undecided', 'why': why}
+        v, t = pk.polynomial_ref(xv * fx, [LD(c) * info[i][0] for i, c in enumerate(cs)])
+        return {'relation': 'consistent', 'value': v, 'tol': t, 'dim': d0, 'why': []}
+    a, m, s = _val(inner['amplitude']), _val(inner['loc']), _val(inner['scale'])
+    if not (1e-6 * (1 - 1e-12) <= s <= 1e6 * (1 + 1e-12)):
+        raise OutOfDomain('scale outside 1e-6..1e6')
+    (fa, da), (fm, dm), (fs, ds) = (_uinfo(inner[k].unit) for k in PEAK_NAMES)
+    rels = [pk.dim_relation(dm, dx), pk.dim_relation(ds, dx)]
+    why = [w_ for w_, r in zip(('loc against x', 'scale against x'), rels, strict=True) if r != 'same']
+    frac = None
+    if kind == 'pvoigt':
+        f = _val(inner['fraction'])
+        ff, df = _uinfo(inner['fraction'].unit)
+        rels.append(pk.dim_relation(df, pk.ZERO_DIM))
+        if rels[-1] != 'same':
+            why.append('fraction against a pure number')
+        frac = LD(f) * ff
+    w = _worst(rels)
+    if w != 'same':
+        return {'relation': 'inconsistent' if w == 'hard' else 'undecided', 'why': why}
+    if frac is not None and not 0.0 <= float(frac) <= 1.0:
+        raise OutOfDomain('fraction outside [0, 1]')
+    v, t = pk.peak_ref_inputs(kind, xv * fx, LD(a) * fa, LD(m) * fm, LD(s) * fs, frac)
+    return {'relation': 'consistent', 'value': v, 'tol': t, 'dim': pk.dim_add(da, dx, -1), 'why': []}
 
 
 def _hex(v):
@@ -237,6 +357,9 @@ class Monitors:
         # harness label of the kind of parameter dict being handed over (evidence and grouping of
         # witnesses only: every verdict is taken from the names actually observed)
         self.dict_kind = None
+        # harness label of the class of units being handed over (evidence and grouping only: the verdict
+        # comes from the units actually observed, through the independent table)
+        self.unit_class = None
 
     # -- registry driven by the observed constructor arguments ----------------
     def spec_of(self, model):
@@ -346,7 +469,11 @@ class Monitors:
                               case, how=how, model=kind, exc=type(ev.exc).__name__)
             return
         # in-domain?  (raises OutOfDomain before any verdict, also for the raised case)
-        exp, tol, unit = expected(spec, x, params)
+        try:
+            exp, tol, unit = expected(spec, x, params)
+        except UnitsNotExact:
+            self.judge_units(ev, spec, x, params, case)
+            return
         if ev.depth == 0:
             ctx.count('judged_top_level_calls:' + self.origin)
         if ev.exc is not None:
@@ -371,6 +498,119 @@ class Monitors:
         self._compare(got, exp, tol, x, 'pointwise.' + kind, case, kind)
         if kind == 'comp':
             self._judge_parts(ev, spec, params, got, case)
+
+    def judge_units(self, ev, spec, x, params, case):
+        """A complete parameter set whose units are not exactly those of the closed form.
+
+        "the polynomial equals the sum of a_i x^i", "a composite equals the sum of its parts", results "carry
+        the units implied by the parameters": the arguments are physical quantities, so whenever a result is
+        returned it is the physical value of the definition in a unit of the implied dimension -- whatever
+        scale each argument was given in -- and where the terms have no common dimension there is no
+        implied unit and nothing to return.  Allowed: a refusal (scipp does not convert units implicitly:
+        sc.UnitError, or the conventional ValueError / TypeError / KeyError), or, for dimensionally
+        consistent arguments only, the physically correct value."""
+        ctx = self.ctx
+        kind = spec['kind']
+        info = si_expected(spec, x, params)  # OutOfDomain when a unit is not in the independent table
+        rel = info['relation']
+        label = self.unit_class or '-'
+        if rel == 'undecided':
+            ctx.count('undecided:units differ in angle / counts only')
+            return
+        rel = 'scaled' if rel == 'consistent' else rel
+        ctx.event(f'unit_judged.{rel}.{kind}')
+        if ev.depth == 0:
+            ctx.count('judged_top_level_calls:' + self.origin)
+        if ev.exc is not None:
+            if isinstance(ev.exc, UNIT_REFUSAL_TYPES):
+                ctx.event(f'unit_refusal.{rel}.{kind}')
+                ctx.count('unit_refusal_type:' + type(ev.exc).__name__)
+                if self.unit_class:
+                    ctx.event('units refused: ' + self.unit_class)
+            else:
+                ctx.violation('unit_refusal_wrong_type',
+                              f'{spec_str(spec)} refused {rel} units with {type(ev.exc).__name__}: {ev.exc}',
+                              case, model=kind, relation=rel, exc=type(ev.exc).__name__)
+            if kind == 'comp':
+                self._judge_parts_of_refused(ev, spec)
+            return
+        res = ev.result
+        if rel == 'inconsistent':
+            ctx.violation('accepted_inconsistent_units',
+                          f'{spec_str(spec)} returned a result'
+                          f'{" in " + str(res.unit) if isinstance(res, sc.Variable) else ""} for arguments '
+                          f'without a common dimension ({"; ".join(info["why"])}): x in {x.unit}, parameters in '
+                          f'{ {k: str(v.unit) for k, v in params.items()} }', case, model=kind, units=label)
+            if kind == 'comp':
+                self._judge_parts_of_refused(ev, spec)
+            return
+        if not isinstance(res, sc.Variable):
+            ctx.violation('result_type', f'{spec_str(spec)} returned {type(res).__name__}', case, model=kind)
+            return
+        try:
+            fr, dr = pk.u_lookup(res.unit)
+        except KeyError:
+            ctx.count('undecided:result unit not in the independent table')
+            return
+        drel = pk.dim_relation(dr, info['dim'])
+        if drel == 'soft':
+            ctx.count('undecided:units differ in angle / counts only')
+            return
+        if drel == 'hard':
+            ctx.violation('wrong_unit', f'{spec_str(spec)}: result unit {res.unit} does not have the dimension '
+                          f'implied by the parameters', case, model=kind)
+            return
+        if tuple(res.dims) != tuple(x.dims) or tuple(res.shape) != tuple(x.shape):
+            ctx.violation('wrong_shape', f'{spec_str(spec)}: result dims {res.dims}{res.shape} for x '
+                          f'{x.dims}{x.shape}', case, model=kind)
+            return
+        ctx.event('unit_scaled_value.' + kind)
+        if self.unit_class:
+            ctx.event('units accepted and judged: ' + self.unit_class)
+        got = np.asarray(res.values, dtype=np.float64)
+        if got.size == 0:
+            return
+        exp, tol = info['value'], info['tol'] + LD(pk.K * EPS) * np.abs(info['value'])
+        if not np.all(np.isfinite(got)):
+            ctx.violation('non_finite', f'{spec_str(spec)}: non-finite value for finite in-domain input', case,
+                          model=kind)
+            return
+        err = np.abs(got.astype(LD) * fr - exp)
+        ratio = err / tol
+        worst = float(np.max(ratio))
+        ctx.dev(f'unit_scaled_value.{kind} [fraction of bound]', worst)
+        if worst > 1.0:
+            i = int(np.argmax(ratio))
+            xv = np.ravel(np.asarray(x.values, dtype=np.float64))
+            case = dict(case)
+            want_i = np.ravel(exp)[i] / fr
+            case['worst'] = {'x_hex': float(xv[i]).hex(), 'got': repr(np.ravel(got)[i]),
+                             'expected_in_result_unit': repr(want_i), 'result_unit': str(res.unit)}
+            ctx.violation('value_ignores_units',
+                          f'{spec_str(spec)}: x in {x.unit}, parameters in '
+                          f'{ {k: str(v.unit) for k, v in params.items()} }: returned {float(np.ravel(got)[i])!r} '
+                          f'{res.unit} at x={float(xv[i])!r}, the definition gives {float(want_i)!r} {res.unit} '
+                          f'({worst:.3g} x bound)', case, model=kind, units=label)
+        if kind == 'comp':
+            self._judge_parts_of_refused(ev, spec)
+
+    def _judge_parts_of_refused(self, ev, spec):
+        """Sub-calls of a composite that was not judged through the exact closed form (it refused, or its
+        parts are in different units): every part that was reached is judged on its own."""
+        subs = []
+        for c in ev.children:
+            if c.name == 'call':
+                subs.append(c)
+            else:
+                subs.extend(cc for cc in c.children if cc.name == 'call')
+        for part in (spec['left'], spec['right']):
+            names = spec_names(part)
+            for c in subs:
+                if set(c.args['params']) == names:
+                    try:
+                        self.judge_call(c, part)
+                    except OutOfDomain as e:
+                        self.ctx.count('out_of_domain:' + str(e))
 
     def _compare(self, got, exp, tol, x, name, case, kind):
         ctx = self.ctx
@@ -1510,6 +1750,318 @@ def family_case(rng, ctx, mon, M, kind, base):
     return sig, False, case
 
 
+# ------------------------------------------- units given in every way a caller may ---
+# "x and y in arbitrary units": the arguments are physical quantities and nothing obliges a caller to give
+# a_i in exactly a_0.unit / x.unit**i, or loc / scale in exactly the unit of x.  Units are descriptors of
+# the independent table (rv/oracle/peakdefs.py); the container units are built from them by scipp's unit
+# algebra.  From a consistent assignment every single argument in turn is given (a) in another scale of
+# the same quantity (another base unit of the same dimension for one factor of its unit, or x percent) and
+# (b) in a unit of another dimension (x or / a base unit of length, time, mass, temperature; the unit of a
+# neighbouring coefficient).
+UX_POOL = [(('m', 1),), (('mm', 1),), (('cm', 1),), (('angstrom', 1),), (('s', 1),), (('ms', 1),), (('us', 1),),
+           (('deg', 1),), (('meV', 1),), (), (('angstrom', -1),), (('K', 1),)]
+UY_POOL = [(('counts', 1),), (), (('kg', 1),), (('K', 1),), (('counts', 1), ('angstrom', 1)), (('m', 1),),
+           (('cm', 1),), (('J', 1), ('s', -1)), (('us', -1),), (('counts', 1), ('us', -1))]
+HARD_BASES = ('K', 's', 'm', 'kg')
+
+UC_POLY_AI_SCALED = 'units: polynomial coefficient a_i (i>=1) in another scale of its unit'
+UC_POLY_A0_SCALED = 'units: polynomial a0 in another scale of its unit'
+UC_POLY_X_SCALED = 'units: polynomial x in another scale of its unit'
+UC_PERCENT = 'units: percent next to dimensionless'
+UC_POLY_AI_DIM = 'units: polynomial coefficient a_i (i>=1) of another dimension'
+UC_POLY_A0_DIM = 'units: polynomial a0 of another dimension'
+UC_POLY_X_DIM = 'units: polynomial x of another dimension'
+UC_POLY_ALL_A0 = 'units: all polynomial coefficients in the unit of a0'
+UC_PEAK_LOC_SCALED = 'units: peak loc in another scale of the unit of x'
+UC_PEAK_SCALE_SCALED = 'units: peak scale in another scale of the unit of x'
+UC_PEAK_BOTH_SCALED = 'units: peak loc and scale in another scale of the unit of x'
+UC_PEAK_X_SCALED = 'units: peak x in another scale of the unit of loc and scale'
+UC_PEAK_AMP_SCALED = 'units: peak amplitude in another scale of its unit'
+UC_FRACTION_PERCENT = 'units: fraction in percent'
+UC_PEAK_LOC_DIM = 'units: peak loc of another dimension'
+UC_PEAK_SCALE_DIM = 'units: peak scale of another dimension'
+UC_PEAK_X_DIM = 'units: peak x of another dimension'
+UC_FRACTION_DIM = 'units: fraction with a dimension'
+UC_COMP_POLY_SCALED = 'units: composite, polynomial part with a coefficient in another scale'
+UC_COMP_PEAK_SCALED = 'units: composite, peak part with loc in another scale'
+UC_COMP_X_SCALED = 'units: composite, x in another scale'
+UC_COMP_PARTS_SCALED = 'units: composite, parts in different scales of one unit'
+UC_COMP_POLY_DIM = 'units: composite, polynomial part with a coefficient of another dimension'
+UC_COMP_PEAK_DIM = 'units: composite, peak part with scale of another dimension'
+UC_COMP_PARTS_DIM = 'units: composite, parts of different dimensions'
+UNIT_CLASSES_POLY = [UC_POLY_AI_SCALED, UC_POLY_A0_SCALED, UC_POLY_X_SCALED, UC_PERCENT, UC_POLY_AI_DIM,
+                     UC_POLY_A0_DIM, UC_POLY_X_DIM, UC_POLY_ALL_A0]
+UNIT_CLASSES_PEAK = [UC_PEAK_LOC_SCALED, UC_PEAK_SCALE_SCALED, UC_PEAK_BOTH_SCALED, UC_PEAK_X_SCALED,
+                     UC_PEAK_AMP_SCALED, UC_FRACTION_PERCENT, UC_PEAK_LOC_DIM, UC_PEAK_SCALE_DIM, UC_PEAK_X_DIM,
+                     UC_FRACTION_DIM]
+UNIT_CLASSES_COMP = [UC_COMP_POLY_SCALED, UC_COMP_PEAK_SCALED, UC_COMP_X_SCALED, UC_COMP_PARTS_SCALED,
+                     UC_COMP_POLY_DIM, UC_COMP_PEAK_DIM, UC_COMP_PARTS_DIM]
+# classes the unchanged semantics of scipp (no implicit conversion) lets through: exact relation
+UNIT_CLASSES_VALID = [UC_PEAK_AMP_SCALED]
+
+
+def scaled_variants(desc):
+    """Descriptors of the same dimension with another SI factor: one base unit exchanged for another base
+    unit of the same dimension, or the whole unit taken in percent."""
+    out = []
+    for k, (base, e) in enumerate(desc):
+        for sib in pk.siblings(base):
+            if all(b != sib for b, _ in desc):
+                out.append((*desc[:k], (sib, e), *desc[k + 1:]))
+    if all(b != 'percent' for b, _ in desc):
+        out.append((*desc, ('percent', 1)))
+    return [d for d in out if pk.u_dim(d) == pk.u_dim(desc) and pk.u_factor(d) != pk.u_factor(desc)]
+
+
+def other_dimension_variants(desc, extra=()):
+    """Descriptors whose dimension differs from ``desc`` in length / time / mass / temperature."""
+    out = list(extra)
+    for b in HARD_BASES:
+        out.append(pk.u_mul(desc, ((b, 1),)))
+        out.append(pk.u_mul(desc, ((b, 1),), -1))
+    return [d for d in out if pk.dim_relation(pk.u_dim(d), pk.u_dim(desc)) == 'hard']
+
+
+def pick(rng, lst):
+    return lst[int(rng.integers(0, len(lst)))]
+
+
+def uvar(value, desc):
+    return sc.scalar(float(value), unit=pk.u_register(desc))
+
+
+def rescaled(value, old, new):
+    """The number that expresses the same quantity in unit ``new`` (what a caller who measures in ``new``
+    holds); own table arithmetic."""
+    return float(value) * float(pk.u_factor(old) / pk.u_factor(new))
+
+
+def _ask_units(rng, ctx, mon, model, x, params, label, fwhm=False):
+    ctx.hit(label)
+    mon.unit_class = label
+    try:
+        safe_call(model, x, shuffled(rng, params))
+        if fwhm:
+            try:
+                model.fwhm(params)
+            except Exception:  # noqa: BLE001  (judged by the fwhm monitor)
+                pass
+    finally:
+        mon.unit_class = None
+
+
+def poly_unit_variants(rng, ctx, ux, uy, degree):
+    """[(class, coefficient descriptors, x descriptor)] around the consistent assignment a_i in uy / ux^i."""
+    base = [pk.u_mul(uy, ux, -i) for i in range(degree + 1)]
+    idxs = sorted({degree, 1, max(1, degree // 2)})
+    out = []
+
+    def repl(i, d):
+        return [d if j == i else b for j, b in enumerate(base)]
+
+    percent = not ux and not uy
+    for i in idxs:
+        ctx.count('unit_variant_coefficient:' + ('highest' if i == degree else ('first' if i == 1 else 'inner')))
+        out.append((UC_POLY_AI_SCALED, repl(i, pick(rng, scaled_variants(base[i]))), ux))
+        cands = other_dimension_variants(base[i], extra=[base[i - 1], base[i + 1] if i < degree else
+                                                         pk.u_mul(uy, ux, -(i + 1)), uy])
+        out.append((UC_POLY_AI_DIM, repl(i, pick(rng, cands)), ux))
+    out.append((UC_POLY_A0_SCALED, repl(0, pick(rng, scaled_variants(base[0]))), ux))
+    out.append((UC_POLY_A0_DIM, repl(0, pick(rng, other_dimension_variants(base[0], extra=[base[1]]))), ux))
+    out.append((UC_POLY_X_SCALED, base, pick(rng, scaled_variants(ux))))
+    out.append((UC_POLY_X_DIM, base, pick(rng, other_dimension_variants(ux))))
+    if pk.dim_relation(pk.u_dim(ux), pk.ZERO_DIM) == 'hard':
+        out.append((UC_POLY_ALL_A0, [uy] * (degree + 1), ux))
+    if percent:  # pure numbers: the only other scale is percent
+        out = [(UC_PERCENT if cls in (UC_POLY_AI_SCALED, UC_POLY_A0_SCALED, UC_POLY_X_SCALED) else cls, c, x)
+               for cls, c, x in out]
+    return out
+
+
+def register_poly_results(cdescs, xdesc):
+    for i, d in enumerate(cdescs):
+        pk.u_register(pk.u_mul(d, xdesc, i))
+
+
+def unit_numbers_poly(rng, degree):
+    xmag = logu(rng, -1, 1)
+    cs = [float((1.0 if rng.random() < 0.5 else -1.0) * rng.uniform(0.5, 2.0) / xmag ** i)
+          for i in range(degree + 1)]
+    n = int(rng.integers(2, 8))
+    xs = xmag * rng.uniform(0.3, 3.0, size=n) * np.where(rng.random(n) < 0.5, 1.0, -1.0)
+    return cs, np.asarray(xs, dtype=np.float64)
+
+
+def poly_unit_case(rng, ctx, mon, M):
+    """The polynomial with every single argument in turn in another scale of its unit / in a unit of
+    another dimension; once with drawn x and y units and once with pure numbers (percent)."""
+    degree = int(rng.integers(1, 7))
+    ctx.hit(f'degree {degree}')
+    p1 = draw_prefix(rng, ctx, avoid=('',))
+    models = [(build_leaf(M, {'kind': 'poly', 'prefix': '', 'degree': degree}), ''),
+              (build_leaf(M, {'kind': 'poly', 'prefix': p1, 'degree': degree}), p1)]
+    blocks = [(pick(rng, UX_POOL), pick(rng, UY_POOL)), ((), ())]
+    case = {'kind': 'poly units', 'degree': degree, 'prefixes': ['', p1], 'blocks': []}
+    for ux, uy in blocks:
+        cs, xs = unit_numbers_poly(rng, degree)
+        variants = poly_unit_variants(rng, ctx, ux, uy, degree)
+        case['blocks'].append({'x_unit': pk.u_name(ux), 'y_unit': pk.u_name(uy),
+                               'coeffs_hex': [_hex(c) for c in cs],
+                               'variants': [[cls, [pk.u_name(d) for d in cd], pk.u_name(xd)]
+                                            for cls, cd, xd in variants]})
+        for cls, cdescs, xdesc in variants:
+            register_poly_results(cdescs, xdesc)
+            x = sc.array(dims=[pick(rng, DIMS)], values=xs, unit=pk.u_register(xdesc))
+            for m, p in models:
+                _ask_units(rng, ctx, mon, m, x, {f'{p}a{i}': uvar(c, d)
+                                                 for i, (c, d) in enumerate(zip(cs, cdescs, strict=True))}, cls)
+    sig = ('units', 'poly', degree, pk.u_name(blocks[0][0]), pk.u_name(blocks[0][1]), prefix_class(p1))
+    return sig, False, case
+
+
+def unit_numbers_peak(rng, kind):
+    scale = logu(rng, -2, 2)
+    loc = scale * float(rng.uniform(0.5, 20.0)) * (1.0 if rng.random() < 0.5 else -1.0)
+    vals = {'amplitude': logu(rng, -3, 3) * (1.0 if rng.random() < 0.6 else -1.0), 'loc': loc, 'scale': scale}
+    if kind == 'pvoigt':
+        vals['fraction'] = float(rng.uniform(0.05, 0.95))
+    n = int(rng.integers(2, 8))
+    xs = loc + scale * rng.uniform(-3, 3, size=n)
+    return vals, np.asarray(xs, dtype=np.float64)
+
+
+def peak_unit_variants(rng, kind, ux, ua):
+    """[(class, {argument: descriptor} incl. 'x')] around x, loc, scale in ux, amplitude in ua, fraction a
+    pure number."""
+    base = {'x': ux, 'amplitude': ua, 'loc': ux, 'scale': ux}
+    if kind == 'pvoigt':
+        base['fraction'] = ()
+    sx = pick(rng, scaled_variants(ux))
+    out = [(UC_PEAK_LOC_SCALED, {**base, 'loc': pick(rng, scaled_variants(ux))}),
+           (UC_PEAK_SCALE_SCALED, {**base, 'scale': pick(rng, scaled_variants(ux))}),
+           (UC_PEAK_BOTH_SCALED, {**base, 'loc': sx, 'scale': sx}),
+           (UC_PEAK_X_SCALED, {**base, 'x': pick(rng, scaled_variants(ux))}),
+           (UC_PEAK_AMP_SCALED, {**base, 'amplitude': pick(rng, scaled_variants(ua))}),
+           (UC_PEAK_LOC_DIM, {**base, 'loc': pick(rng, other_dimension_variants(ux))}),
+           (UC_PEAK_SCALE_DIM, {**base, 'scale': pick(rng, other_dimension_variants(ux))}),
+           (UC_PEAK_X_DIM, {**base, 'x': pick(rng, other_dimension_variants(ux))})]
+    if kind == 'pvoigt':
+        out.append((UC_FRACTION_PERCENT, {**base, 'fraction': (('percent', 1),)}))
+        out.append((UC_FRACTION_DIM, {**base, 'fraction': pick(rng, other_dimension_variants(()))}))
+    return base, out
+
+
+def peak_unit_args(rng, vals, xs, base, descs):
+    """Numbers for a variant: an argument given in another scale of its unit holds (coin) the number that
+    expresses the same quantity there or the same number; scale stays in 1e-6..1e6, fraction in [0, 1]."""
+    nums = dict(vals)
+    xv = xs
+    for k, d in descs.items():
+        if d == base[k] or pk.u_dim(d) != pk.u_dim(base[k]):
+            continue
+        convert = k == 'fraction' or rng.random() < 0.6
+        if not convert:
+            continue
+        if k == 'x':
+            xv = np.asarray([rescaled(v, base[k], d) for v in xs], dtype=np.float64)
+        else:
+            new = rescaled(vals[k], base[k], d)
+            if k != 'scale' or 1e-6 <= new <= 1e6:
+                nums[k] = new
+    params = {k: uvar(v, descs[k]) for k, v in nums.items()}
+    return xv, params
+
+
+def register_peak_results(descs):
+    for k in ('x', 'loc', 'scale'):
+        pk.u_register(pk.u_mul(descs['amplitude'], descs[k], -1))
+
+
+def peak_unit_case(rng, ctx, mon, M, kind):
+    """A peak model with every single argument in turn in another scale of the common unit / in a unit of
+    another dimension (fraction: percent / a unit with a dimension)."""
+    ux, uy = pick(rng, UX_POOL), pick(rng, UY_POOL)
+    ua = pk.u_mul(uy, ux)
+    p1 = draw_prefix(rng, ctx, avoid=('',))
+    models = [(build_leaf(M, {'kind': kind, 'prefix': ''}), ''), (build_leaf(M, {'kind': kind, 'prefix': p1}), p1)]
+    vals, xs = unit_numbers_peak(rng, kind)
+    base, variants = peak_unit_variants(rng, kind, ux, ua)
+    case = {'kind': kind + ' units', 'x_unit': pk.u_name(ux), 'amplitude_unit': pk.u_name(ua),
+            'values_hex': {k: _hex(v) for k, v in vals.items()}, 'prefixes': ['', p1],
+            'variants': [[cls, {k: pk.u_name(d) for k, d in ds.items()}] for cls, ds in variants]}
+    for cls, descs in variants:
+        register_peak_results(descs)
+        xv, params = peak_unit_args(rng, vals, xs, base, descs)
+        x = sc.array(dims=[pick(rng, DIMS)], values=xv, unit=pk.u_register(descs['x']))
+        for m, p in models:
+            _ask_units(rng, ctx, mon, m, x, {p + k: v for k, v in params.items()}, cls, fwhm=True)
+    sig = ('units', kind, pk.u_name(ux), pk.u_name(uy), prefix_class(p1))
+    return sig, False, case
+
+
+def comp_unit_case(rng, ctx, mon, M):
+    """polynomial + peak (built with ``+`` and with a prefixed CompositeModel): a single argument of one part
+    in another scale / of another dimension, x in another scale, and the two parts in different scales of
+    one unit / in units of different dimensions."""
+    ux, uy = pick(rng, UX_POOL), pick(rng, UY_POOL)
+    ua = pk.u_mul(uy, ux)
+    degree = int(rng.integers(1, 4))
+    ctx.hit(f'degree {degree}')
+    kind = pick(rng, PEAKS)
+    lp, rp = pick(rng, [('b_', 'g_'), ('', 'p_'), ('bkg_', ''), ('a', 'am')])
+    cp = draw_prefix(rng, ctx, avoid=('',))
+    specs = [{'kind': 'comp', 'prefix': pre, 'left': {'kind': 'poly', 'prefix': lp, 'degree': degree},
+              'right': {'kind': kind, 'prefix': rp}} for pre in ('', cp)]
+    models = []
+    for spec, use_add in zip(specs, (True, False), strict=True):
+        m = build_model(rng, M, spec, use_add=use_add)
+        if mon.spec_of(m) != spec:
+            ctx.inconclusive_because('harness: observed composite structure differs from the plan: '
+                                     f'{mon.spec_of(m)} vs {spec_str(spec)}')
+            continue
+        models.append((m, spec))
+    vals, xs = unit_numbers_peak(rng, kind)
+    # every term of the polynomial and the peak of order one near loc: no part hides in the bound of another
+    vals['amplitude'] = float(np.sign(vals['amplitude']) * rng.uniform(0.5, 2.0) * 2.5 * vals['scale'])
+    span = max(abs(vals['loc']), vals['scale'])
+    cs = [float((1.0 if rng.random() < 0.5 else -1.0) * rng.uniform(0.5, 2.0) / span ** j)
+          for j in range(degree + 1)]
+    pbase = [pk.u_mul(uy, ux, -i) for i in range(degree + 1)]
+    kbase = {'x': ux, 'amplitude': ua, 'loc': ux, 'scale': ux}
+    if kind == 'pvoigt':
+        kbase['fraction'] = ()
+    i = int(rng.integers(1, degree + 1))
+
+    def repl(d):
+        return [d if j == i else b for j, b in enumerate(pbase)]
+
+    sx = pick(rng, scaled_variants(ux))
+    variants = [
+        (UC_COMP_POLY_SCALED, repl(pick(rng, scaled_variants(pbase[i]))), kbase),
+        (UC_COMP_PEAK_SCALED, pbase, {**kbase, 'loc': pick(rng, scaled_variants(ux))}),
+        (UC_COMP_X_SCALED, pbase, {**kbase, 'x': sx}),
+        (UC_COMP_PARTS_SCALED, pbase, {**kbase, 'amplitude': pk.u_mul(pick(rng, scaled_variants(uy)), ux)}),
+        (UC_COMP_POLY_DIM, repl(pick(rng, other_dimension_variants(pbase[i], extra=[uy]))), kbase),
+        (UC_COMP_PEAK_DIM, pbase, {**kbase, 'scale': pick(rng, other_dimension_variants(ux))}),
+        (UC_COMP_PARTS_DIM, pbase, {**kbase, 'amplitude': pk.u_mul(pick(rng, other_dimension_variants(uy)), ux)}),
+    ]
+    case = {'kind': 'comp units', 'specs': [spec_str(sp) for _, sp in models], 'x_unit': pk.u_name(ux),
+            'y_unit': pk.u_name(uy), 'peak_values_hex': {k: _hex(v) for k, v in vals.items()},
+            'coeffs_hex': [_hex(c) for c in cs],
+            'variants': [[cls, [pk.u_name(d) for d in cd], {k: pk.u_name(d) for k, d in kd.items()}]
+                         for cls, cd, kd in variants]}
+    for cls, cdescs, kdescs in variants:
+        register_poly_results(cdescs, kdescs['x'])
+        register_peak_results(kdescs)
+        xv, kparams = peak_unit_args(rng, vals, xs, kbase, kdescs)
+        pparams = {f'a{j}': uvar(c, d) for j, (c, d) in enumerate(zip(cs, cdescs, strict=True))}
+        x = sc.array(dims=[pick(rng, DIMS)], values=xv, unit=pk.u_register(kdescs['x']))
+        for m, spec in models:
+            _ask_units(rng, ctx, mon, m, x, full_params(spec, [pparams, kparams]), cls)
+    sig = ('units', 'comp', kind, degree, pk.u_name(ux), pk.u_name(uy))
+    return sig, False, case
+
+
 def in_situ_fit(rng, ctx, mon, M):
     """The models evaluated inside the real fitting pipeline, with the monitors armed."""
     from scippneutron.peaks import fit_peaks
@@ -1547,7 +2099,7 @@ def in_situ_fit(rng, ctx, mon, M):
 # -------------------------------------------------------------------- driver ---
 def plan(tier, seed):
     n_shards = 16
-    sets = 125 if tier == 'quick' else 6250
+    sets = 130 if tier == 'quick' else 6250
     fits = 1 if tier == 'quick' else 12
     return [{'sets': sets, 'fits': fits} for _ in range(n_shards)]
 
@@ -1562,9 +2114,13 @@ def requirements(tier):
                'refusal.missing': 20, 'refusal.extra': 20, 'refusal.unknown': 20,
                'prefix_bitwise.value': 50, 'prefix_bitwise.fwhm': 20, 'prefix_bitwise.guess': 10,
                'prefix_bitwise.param_bounds': 10, 'guess': 10, 'param_bounds': 10, 'fwhm.unsupported': 10})
+    for k in (*PEAKS, 'poly', 'comp'):
+        ev[f'unit_judged.scaled.{k}'] = 20
+        ev[f'unit_judged.inconsistent.{k}'] = 20
     forced = ['fraction:0', 'fraction:1', 'fraction:mid', 'prefix:empty', 'prefix:unicode', 'prefix:leading',
               'prefix:nested pair', 'scalar x', '|loc| > 1e6 scale', 'amplitude < 0', 'x == loc',
               'gaussian tail 10..38 sigma', 'polynomial near a root'] + [f'degree {d}' for d in range(1, 7)]
+    forced += UNIT_CLASSES_POLY + UNIT_CLASSES_PEAK + UNIT_CLASSES_COMP
     return {'events': ev, 'forced': forced, 'counters': {'fit_peaks_runs': 1, 'symmetry_pairs': 100}}
 
 
@@ -1577,6 +2133,11 @@ def run(shard, ctx):
         ctx.inconclusive_because(f'quadrature self-test: closed forms integrate to amplitude only within {q:.3g}')
         return
     ctx.extra['mpmath_selftest'] = _mp_selftest(ctx)
+    bad = pk.units_self_test()
+    ctx.extra['unit_table_selftest'] = {'base_units': len(pk.UNIT_BASE), 'disagreements': bad}
+    if bad:
+        ctx.inconclusive_because('independent unit table disagrees with sc.to_unit: ' + '; '.join(bad[:4]))
+        return
     rng = np.random.Generator(np.random.PCG64([shard['seed'], shard['index'], 16]))
     mon = Monitors(ctx)
     tr = Tracer(keep_children=True)
@@ -1588,7 +2149,7 @@ def run(shard, ctx):
             r = rng.random()
             # every kind first (incl. one family of related prefixes per model kind, with a base prefix for
             # which every relation exists: a deterministic part of every shard), then the mixture
-            pick = i if i < 13 else None
+            pick = i if i < 18 else None
             fam_kinds = (*PEAKS, 'poly', 'comp')
             mon.dict_kind = None
             try:
@@ -1603,7 +2164,16 @@ def run(shard, ctx):
                 elif pick in (8, 9, 10, 11, 12):
                     base = NUMBERED[int(rng.integers(0, len(NUMBERED)))]
                     sig, trivial, case = family_case(rng, ctx, mon, M, fam_kinds[pick - 8], base)
-                elif pick is None and r < 0.96:
+                elif pick in (13, 14, 15) or (pick is None and r >= 0.99):
+                    # units of every single argument in another scale / of another dimension: a deterministic
+                    # part of every shard (one case per model kind), and part of the mixture
+                    kind = PEAKS[pick - 13] if pick is not None else PEAKS[int(rng.integers(0, 3))]
+                    sig, trivial, case = peak_unit_case(rng, ctx, mon, M, kind)
+                elif pick == 16 or (pick is None and r >= 0.98):
+                    sig, trivial, case = poly_unit_case(rng, ctx, mon, M)
+                elif pick == 17 or (pick is None and r >= 0.97):
+                    sig, trivial, case = comp_unit_case(rng, ctx, mon, M)
+                elif pick is None and r < 0.94:
                     sig, trivial, case = composite_case(rng, ctx, mon, M)
                 else:
                     kind = fam_kinds[int(rng.integers(0, len(fam_kinds)))]
